@@ -1,6 +1,6 @@
 //! Source location utilities.
 
-use saphyr_parser::Span as ParserSpan;
+use saphyr_parser::{Marker, Span as ParserSpan};
 use serde::Deserialize;
 
 /// Type alias for span offset and length fields.
@@ -235,6 +235,29 @@ impl Location {
     }
 }
 
+/// Line and 1-based column of a parser mark.
+///
+/// When the scanner closes the stream it moves its mark to the start of a fresh line, even if
+/// the input does not end with a line break. Such a mark (column 0 although the character in
+/// front of it is not a line break) names a line that does not exist, while its character and
+/// byte offsets are still those of the end of the input. With the input text at hand the mark is
+/// put back just after the last character of the last line. Without the text (reader input) the
+/// mark is reported as the parser gives it.
+pub(crate) fn mark_line_and_column(mark: &Marker, input: Option<&str>) -> (usize, usize) {
+    if mark.col() == 0
+        && mark.line() > 1
+        && let Some(text) = input
+        && let Some(byte) = mark.byte_offset()
+        && byte > 0
+        && let Some(before) = text.get(..byte)
+        && !before.ends_with(['\n', '\r'])
+    {
+        let line_start = before.rfind(['\n', '\r']).map_or(0, |i| i + 1);
+        return (mark.line() - 1, before[line_start..].chars().count() + 1);
+    }
+    (mark.line(), mark.col() + 1)
+}
+
 /// Convert a `saphyr_parser::Span` to a 1-indexed [`Location`].
 ///
 /// Called by:
@@ -242,7 +265,14 @@ impl Location {
 ///
 /// The resulting [`Location::span`] carries character offsets/lengths (not bytes),
 /// matching what the parser reports.
+#[cfg_attr(not(feature = "verif_hooks"), allow(dead_code))]
 pub(crate) fn location_from_span(span: &ParserSpan) -> Location {
+    location_from_span_in(span, None)
+}
+
+/// [`location_from_span`] for a span of the in-memory input `input` (see
+/// [`mark_line_and_column`]).
+pub(crate) fn location_from_span_in(span: &ParserSpan, input: Option<&str>) -> Location {
     let start = &span.start;
     let end = &span.end;
 
@@ -269,7 +299,8 @@ pub(crate) fn location_from_span(span: &ParserSpan) -> Location {
             (0, 0)
         };
 
-    Location::new(start.line(), start.col() + 1).with_span(Span {
+    let (line, column) = mark_line_and_column(start, input);
+    Location::new(line, column).with_span(Span {
         offset: start.index() as SpanIndex,
         len: span.len() as SpanIndex,
         byte_info,
